@@ -153,7 +153,7 @@ class ThreadPool(object):
 
     def starmap(self, func, args, **kw):
         use_result_objects = kw.get('use_result_objects', False)
-        if len(args[0]) == 1:
+        if len(args) == 1:
             return self._single_call(func, args[0], use_result_objects)
 
         return _result_iter(self.map_each([(func, arg) for arg in args], raise_exceptions=not use_result_objects),
